@@ -438,13 +438,15 @@ def _special(raw):
     return "'" in raw or '\\' in raw
 
 
-def quoting_trigger(st, path, got, allowed=()):
+def quoting_trigger(st, path, got, allowed=(), add_exc=None):
     """For an anomaly that a router fed only the accepted templates shows too.
 
-    find raised: generated-source trouble does not depend on the path; if a
-    clean router fed the same templates with quote/backslash replaced by
-    letters IN LITERAL SEGMENTS ONLY does not raise, the cause is literal text
-    pasted into the generated source ('source_literal').
+    find raised SyntaxError (or anything, after add_route(compile=True) raised
+    SyntaxError and left finder and side tables out of step) and a literal
+    segment contains a quote or backslash: if a clean router fed the same
+    templates with these characters replaced by letters IN LITERAL SEGMENTS
+    ONLY does not raise, the cause is literal text pasted into the generated
+    source ('source_literal').
 
     wrong answer: the templates involved (the one the router chose, the ones
     the model allows) are inspected: quote/backslash in a literal segment ->
@@ -454,8 +456,11 @@ def quoting_trigger(st, path, got, allowed=()):
     if not any(_special(t) for t, _r in st.accepted):
         return 'none'
     if got is not None and got[0] == 'raised':
+        if 'SyntaxError' not in (got[1], add_exc) or not any(
+                _special(raw) and '{' not in raw for t, _r in st.accepted for raw in Tree.split(t)):
+            return 'none'
         clean = build([(_san_lit(t), res) for t, res in st.accepted])
-        r = None if clean is None else do_find(clean, path)
+        r = None if clean is None else do_find(clean, _san(path))
         return 'source_literal' if clean is not None and (r is None or r[0] == 'hit') else 'none'
     involved = [got[3]] if got is not None and got[3] else []
     for o in allowed:
@@ -682,7 +687,8 @@ def do_add(st, ch, segs, intent, pos, index):
                         'templates %r' % (t, comp, out[1], '/zz', got[1], got[2],
                                           [x for x, _ in st.accepted]),
                         exc=got[1], fresh_router_raises=True, mode=st.mode, cause='none',
-                        blame='none', depth='-', trigger=quoting_trigger(st, '/zz', got))
+                        blame='none', depth='-',
+                        trigger=quoting_trigger(st, '/zz', got, add_exc=out[1]))
         st.dead = True
         return
     st.trace.append('R')
